@@ -35,5 +35,7 @@ print("|---|---|---|---|")
 for d in sorted(glob.glob(os.path.join(ROOT, "seeded", "C*-*"))):
     m = json.load(open(os.path.join(d, "meta.json")))
     cr = m.get("check_result", {})
-    fv = re.sub(r"VIOLATION property=\S+ replay=\S+\s*", "", cr.get("first_violation", ""))
-    print(f"| {os.path.basename(d)} | {cell(m.get('summary', ''), 260)} | {'caught' if cr.get('exit') == 1 else 'MISSED'} ({cr.get('violation_lines')} lines) | {cell(fv, 200)} |")
+    fv = re.sub(r"VIOLATION property=\S+ replay=\S+\s*", "", cr.get("first_violation") or "")
+    others = ", ".join(f"{o} {'catches it' if v.get('exit') == 1 else 'does not'}" for o, v in (m.get("other_checks") or {}).items())
+    own = "caught" if cr.get("exit") == 1 else "not caught" + (f" ({others})" if others else "")
+    print(f"| {os.path.basename(d)} | {cell(m.get('summary', ''), 230)} | {own} | {cell(fv, 160)} |")
